@@ -53,7 +53,12 @@ STYLES = ["dotted", "dataclass", "class", "inner"]
 F_WHOLE = "C07-dotted-whole-group"
 KEY_POOL = ["grp", "opts", "net"]
 NAME_POOL = ["alpha", "beta", "gamma", "delta", "eps", "lam"]
-TYPES = ["int", "str", "bool", "float", "optInt", "listInt"]
+TYPES = ["int", "str", "bool", "float", "optInt", "listInt", "optListInt", "optDictStrInt", "optTupleIntStr", "optLitAB"]
+OPTIONAL = {"optInt", "optListInt", "optDictStrInt", "optTupleIntStr", "optLitAB"}      # Optional[...] of anything
+PLUS = {"listInt", "optListInt"}
+NEWDEF = {"optListInt": [None, [1, 2], []], "optDictStrInt": [None, {"k": 1}, {}], "optTupleIntStr": [None, [1, "a"]], "optLitAB": [None, "a", "b"]}
+GOOD_RAW = {"optListInt": ["[1,2]", "[]", "null"], "optDictStrInt": ['{"k": 1}', "{}", "null"], "optTupleIntStr": ['[1, "a"]', "null"], "optLitAB": ["a", "b", "null"]}
+GOOD_NATIVE = {"optListInt": [[1, 2], [], None], "optDictStrInt": [{"k": 1, "m": 2}, {}, None], "optTupleIntStr": [[1, "a"], None], "optLitAB": ["a", "b", None]}
 
 RAW = {
     "int": ["1", "-3", "0", "12", "5.0", "1e3", "abc", "true", "null", "[1]", "007", "0x1F"],
@@ -62,6 +67,10 @@ RAW = {
     "float": ["1.5", "2", "-0.25", "1e3", "abc", "true", ".5", "null"],
     "optInt": ["null", "4", "abc", "1.5", "-7", "None"],
     "listInt": ["[1,2]", "[]", "3", "[1,\"a\"]", "abc", "null", "[1.5]", "[[1]]", "[true]", "[4]"],
+    "optListInt": ["[1,2]", "[]", "null", "3", "abc", "[1.5]", "[4]"],
+    "optDictStrInt": ['{"k": 1}', "{}", "null", '{"k": "x"}', "3", "abc"],
+    "optTupleIntStr": ['[1, "a"]', "null", "[1]", "[1, 2]", "abc", '["a", 1]'],
+    "optLitAB": ["a", "b", "null", "c", "1"],
 }
 RAW_APPEND = ["3", "[4,5]", "abc", "[\"x\"]", "null", "[]", "1.5"]
 NATIVE = {
@@ -71,6 +80,10 @@ NATIVE = {
     "float": [1.5, 2, -0.25, "2.5", True, None, "abc"],
     "optInt": [None, 4, "null", "5", 1.5, "abc"],
     "listInt": [[1, 2], [], 3, [1, "a"], None, "abc", [1.5], "[7]"],
+    "optListInt": [[1, 2], [], None, 3, [1, "a"], "abc"],
+    "optDictStrInt": [{"k": 1}, {}, None, {"k": "x"}, 3, [1]],
+    "optTupleIntStr": [[1, "a"], None, [1], [1, 2], "abc"],
+    "optLitAB": ["a", "b", None, "c", 1],
 }
 
 
@@ -81,8 +94,9 @@ def gen_fields(rng):
     for n in names:
         ty = rng.choice(TYPES)
         f = {"name": n, "ty": ty}
-        if ty == "optInt" or rng.random() < 0.6:
-            f["def"] = {
+        # an Optional[...] field WITHOUT default: the signature styles derive `default=None, not required` from the annotation
+        if rng.random() < (0.5 if ty in OPTIONAL else 0.6):
+            f["def"] = copy.deepcopy(rng.choice(NEWDEF[ty])) if ty in NEWDEF else {
                 "int": rng.choice([0, 3, -2]), "str": rng.choice(["s0", "w"]), "bool": rng.choice([False, True]),
                 "float": rng.choice([1.5, -0.25]), "optInt": rng.choice([None, 4]), "listInt": rng.choice([[], [1, 2]]),
             }[ty]
@@ -102,6 +116,14 @@ def as_nodes(fields):
     return out
 
 
+def plain_kwargs(n):
+    """how one states the field on a plain argument: an Optional[...] field without default is `default=None` (not required)"""
+    if not n["req"]:
+        d = copy.deepcopy(n["def"])
+        return {"default": tuple(d) if n["ty"] == "optTupleIntStr" and isinstance(d, list) else d}
+    return {"default": None} if n["ty"] in OPTIONAL else {"required": True}
+
+
 def build_four(key, fields):
     from jsonargparse import ActionConfigFile, ActionParser, ArgumentParser
 
@@ -115,7 +137,7 @@ def build_four(key, fields):
         p.add_argument("--cfg", action=ActionConfigFile)
         if st == "dotted":
             for name, n in nodes:
-                kw = {"required": True} if n["req"] else {"default": copy.deepcopy(n["def"])}
+                kw = plain_kwargs(n)
                 p.add_argument("--%s.%s" % (key, name), type=base.py_type(n, mod), **kw)
         elif st == "dataclass":
             p.add_argument("--" + key, type=mod.DC1)
@@ -124,7 +146,7 @@ def build_four(key, fields):
         else:
             inner = ArgumentParser(exit_on_error=False)
             for name, n in nodes:
-                kw = {"required": True} if n["req"] else {"default": copy.deepcopy(n["def"])}
+                kw = plain_kwargs(n)
                 inner.add_argument("--" + name, type=base.py_type(n, mod), **kw)
             p.add_argument("--" + key, action=ActionParser(parser=inner))
         parsers[st] = p
@@ -170,16 +192,18 @@ def gen_input(rng, key, fields):
 
     def raw_for(f, append=False):
         pool = RAW_APPEND if append else RAW[f["ty"]]
+        if append and f["ty"] == "optListInt":
+            pool = [x for x in RAW_APPEND if x != "null"]      # (`+=null` on Optional[List] lets the None member of the Union take over: not modelled)
         if valid_bias:
-            good = {"int": ["1", "-3", "12"], "str": ["hello", "a b", "1"], "bool": ["true", "false"], "float": ["1.5", "2", "1e3"],
-                    "optInt": ["null", "4"], "listInt": ["[1,2]", "[]", "[4]"]}[f["ty"]]
+            good = dict({"int": ["1", "-3", "12"], "str": ["hello", "a b", "1"], "bool": ["true", "false"], "float": ["1.5", "2", "1e3"],
+                         "optInt": ["null", "4"], "listInt": ["[1,2]", "[]", "[4]"]}, **GOOD_RAW)[f["ty"]]
             pool = ["3", "[4,5]", "[]"] if append else good
         return rng.choice(pool)
 
     def native_for(f):
         pool = NATIVE[f["ty"]]
         if valid_bias:
-            pool = {"int": [1, -3, "2"], "str": ["hello", "1"], "bool": [True, False], "float": [1.5, 2], "optInt": [None, 4], "listInt": [[1, 2], []]}[f["ty"]]
+            pool = dict({"int": [1, -3, "2"], "str": ["hello", "1"], "bool": [True, False], "float": [1.5, 2], "optInt": [None, 4], "listInt": [[1, 2], []]}, **GOOD_NATIVE)[f["ty"]]
         return copy.deepcopy(rng.choice(pool))
 
     def gen_tree():
@@ -188,7 +212,7 @@ def gen_input(rng, key, fields):
             return {key: rng.choice([3, None, "text", [1], True])}
         g = {}
         for f in fields:
-            if "def" not in f and valid_bias or rng.random() < 0.6:
+            if ("def" not in f and valid_bias and f["ty"] not in OPTIONAL) or rng.random() < 0.6:
                 g[f["name"]] = native_for(f)
         if rng.random() < (0.05 if valid_bias else 0.25):
             g["zz9"] = rng.choice([1, {}, {"q": 1}])
@@ -200,9 +224,9 @@ def gen_input(rng, key, fields):
     def gen_argv():
         args = []
         for f in fields:
-            if ("def" not in f and valid_bias) or rng.random() < 0.55:
+            if ("def" not in f and valid_bias and f["ty"] not in OPTIONAL) or rng.random() < 0.55:
                 args.append("--%s.%s=%s" % (key, f["name"], raw_for(f)))
-            if f["ty"] == "listInt" and rng.random() < 0.5:
+            if f["ty"] in PLUS and rng.random() < 0.5:
                 for _ in range(rng.randint(1, 2)):
                     args.append("--%s.%s+=%s" % (key, f["name"], raw_for(f, True)))
         if rng.random() < 0.25:
@@ -555,8 +579,11 @@ def run_group(ctx, key, fields, inputs, parsers, out, stats, origin):
 EXT_DEFAULTS = {
     "int": [0, 3, -2, 7], "str": ["s0", "w", "k"], "bool": [False, True], "float": [1.5, -0.25, 2.5],
     "optInt": [None, 4, 9], "listInt": [[], [1, 2], [3]],
+    "optListInt": [None, [1, 2], []], "optLitAB": [None, "a", "b"],
 }
-TYEXPR = {"int": "int", "str": "str", "bool": "bool", "float": "float", "optInt": "Optional[int]", "listInt": "List[int]"}
+EXT_TYPES = ["int", "str", "bool", "float", "optInt", "listInt", "optListInt", "optLitAB"]
+TYEXPR = {"int": "int", "str": "str", "bool": "bool", "float": "float", "optInt": "Optional[int]", "listInt": "List[int]",
+          "optListInt": "Optional[List[int]]", "optLitAB": "Optional[Literal['a', 'b']]"}
 
 
 def gen_ext(rng):
@@ -564,7 +591,7 @@ def gen_ext(rng):
     pool = list(NAME_POOL) + ["xx", "yy", "zed", "kk"]
 
     def leaf(name, in_sub):
-        ty = rng.choice(TYPES)
+        ty = rng.choice(EXT_TYPES)
         c = rng.choice(EXT_DEFAULTS[ty])
         n = {"name": name, "ty": ty, "cls": c}
         others = [x for x in EXT_DEFAULTS[ty] if x != c]
@@ -604,7 +631,7 @@ def ext_leaves(nodes, prefix=""):
 
 def ext_module(ext):
     """dataclasses DCk (for the dataclass style and every nested group) and a plain class PG (class-arguments style)"""
-    lines = ["from dataclasses import dataclass, field", "from typing import List, Optional", "", ""]
+    lines = ["from dataclasses import dataclass, field", "from typing import List, Literal, Optional", "", ""]
     counter = [0]
 
     def own_kwargs(nodes, with_root):
@@ -675,13 +702,14 @@ def ext_root_dict(nodes):
 
 
 def build_four_ext(ext):
-    from typing import List, Optional
+    from typing import List, Literal, Optional
 
     from jsonargparse import ActionConfigFile, ActionParser, ArgumentParser
 
     key = ext["key"]
     mod, src = ext_module(ext)
-    pyty = {"int": int, "str": str, "bool": bool, "float": float, "optInt": Optional[int], "listInt": List[int]}
+    pyty = {"int": int, "str": str, "bool": bool, "float": float, "optInt": Optional[int], "listInt": List[int],
+            "optListInt": Optional[List[int]], "optLitAB": Optional[Literal["a", "b"]]}
     has_root = bool(ext_root_dict(ext["fields"]))
     parsers = {}
     for st in STYLES:
@@ -727,8 +755,8 @@ def gen_ext_input(rng, ext):
     groups = sorted({".".join(f["name"].split(".")[:i]) for f in flat for i in range(1, len(f["name"].split(".")))})
     mode = rng.choice(["argv", "argv", "argv", "string", "object", "env"])
     inp = {"mode": mode, "argv": [], "env": {}, "tree": None}
-    good = {"int": ["1", "-3", "12"], "str": ["hello", "a b"], "bool": ["true", "false"], "float": ["1.5", "2"], "optInt": ["null", "4"], "listInt": ["[1,2]", "[]", "[4]"]}
-    native = {"int": [1, -3], "str": ["hello", "w"], "bool": [True, False], "float": [1.5, 2], "optInt": [None, 4], "listInt": [[1, 2], []]}
+    good = dict({"int": ["1", "-3", "12"], "str": ["hello", "a b"], "bool": ["true", "false"], "float": ["1.5", "2"], "optInt": ["null", "4"], "listInt": ["[1,2]", "[]", "[4]"]}, **GOOD_RAW)
+    native = dict({"int": [1, -3], "str": ["hello", "w"], "bool": [True, False], "float": [1.5, 2], "optInt": [None, 4], "listInt": [[1, 2], []]}, **GOOD_NATIVE)
     bad = rng.random() < 0.25
 
     def some_group_json(prefix):
@@ -742,7 +770,7 @@ def gen_ext_input(rng, ext):
         for f in flat:
             if rng.random() < 0.4:
                 inp["argv"].append("--%s.%s=%s" % (key, f["name"], rng.choice(RAW[f["ty"]] if bad else good[f["ty"]])))
-            if f["ty"] == "listInt" and rng.random() < 0.5:
+            if f["ty"] in PLUS and rng.random() < 0.5:
                 inp["argv"].append("--%s.%s+=%s" % (key, f["name"], rng.choice(["3", "[4,5]"])))
         if rng.random() < 0.3:
             if groups and rng.random() < 0.5:
@@ -938,10 +966,10 @@ def run(ctx: Ctx):
         "recursive field lists: every leaf has a class default (a default instance needs one); declared defaults are given for the root group and "
         "through the default instances of dataclass-typed parameters; a root default instance is built with the sub-groups' own values merged in",
         "the YAML loader is an oracle: every text occurring in an input is loaded by jsonargparse's load_value and handed to the model",
-        "field names do not start with '_' and Optional fields have a default (the signature styles cannot express a required Optional parameter)",
+        "field names do not start with '_'; an Optional[...] field without default is stated as default=None on the plain arguments of the dotted / inner styles",
         "the order of parameters is the same in the four declarations (parameters without default first)",
     ]
-    ctx.lean_build(extractors=["set_defaults_loop"])
+    ctx.lean_build(extractors=["set_defaults_loop", "signature_optional"])
     stats = {"violations": 0, "known": 0, "disagree": 0}
     from ..lib import corpus as corpus_mod
 
